@@ -143,6 +143,94 @@ Proof.
   cbn [lrun lstep]. rewrite Hws, Hs, Ho, Hp. reflexivity.
 Qed.
 
+(* ---------------------------------------------------------------- absorbed strings *)
+
+Lemma bare_flags_step : forall a e v c e1 v1, bare_flags e v c = Some (e1, v1) ->
+  lstep (LBare a e v) c = LOk (LBare (c :: a) e1 v1) [].
+Proof.
+  intros a e v c e1 v1 H. unfold bare_flags in H. cbn [lstep].
+  destruct e; [inversion H; reflexivity|].
+  destruct (aeqb c "{" && v); [inversion H; reflexivity|].
+  destruct (aeqb c "\"); [inversion H; reflexivity|].
+  destruct (aeqb c "$"); [inversion H; reflexivity|].
+  destruct (is_ws c); [discriminate|].
+  destruct (aeqb c ";"); [discriminate|].
+  destruct (aeqb c "{"); [discriminate|].
+  inversion H; reflexivity.
+Qed.
+
+Lemma absorb_bare_run : forall s a e v e' v', absorb_bare e v s = Some (e', v') ->
+  lrun (LBare a e v) s = Some (LBare (rev s ++ a) e' v', []).
+Proof.
+  induction s as [|c s IH]; intros a e v e' v' H; cbn [absorb_bare] in H.
+  - inversion H; subst. reflexivity.
+  - destruct (bare_flags e v c) as [[e1 v1]|] eqn:Hf; [|discriminate].
+    cbn [lrun]. rewrite (bare_flags_step a _ _ _ _ _ Hf), (IH _ _ _ _ _ H).
+    cbn [rev app]. rewrite <- app_assoc. reflexivity.
+Qed.
+
+Lemma quote_flags_step : forall q a e v c e1 v1, quote_flags q e v c = Some (e1, v1) ->
+  lstep (LQuote q a e v) c = LOk (LQuote q (c :: a) e1 v1) [].
+Proof.
+  intros q a e v c e1 v1 H. unfold quote_flags in H. cbn [lstep].
+  destruct e; [inversion H; reflexivity|].
+  destruct (aeqb c "{" && v); [inversion H; reflexivity|].
+  destruct (aeqb c "\"); [inversion H; reflexivity|].
+  destruct (aeqb c "$"); [inversion H; reflexivity|].
+  destruct (aeqb c q); [discriminate|].
+  inversion H; reflexivity.
+Qed.
+
+Lemma absorb_quote_run : forall s q a e v e' v', absorb_quote q e v s = Some (e', v') ->
+  lrun (LQuote q a e v) s = Some (LQuote q (rev s ++ a) e' v', []).
+Proof.
+  induction s as [|c s IH]; intros q a e v e' v' H; cbn [absorb_quote] in H.
+  - inversion H; subst. reflexivity.
+  - destruct (quote_flags q e v c) as [[e1 v1]|] eqn:Hf; [|discriminate].
+    cbn [lrun]. rewrite (quote_flags_step q a _ _ _ _ _ Hf), (IH _ _ _ _ _ _ H).
+    cbn [rev app]. rewrite <- app_assoc. reflexivity.
+Qed.
+
+Lemma flags_down_spec : forall r, flags_down r = true -> r = Some (false, false).
+Proof. intros [[[|] [|]]|] H; cbn in H; try discriminate. reflexivity. Qed.
+
+(* at a token boundary, a character that may start an unquoted token does what it does inside one *)
+Lemma start_step : forall c, start_char_ok c = true ->
+  match bare_flags false false c with
+  | Some (e1, v1) => lstep LStart c = LOk (LBare [c] e1 v1) []
+  | None => True
+  end.
+Proof.
+  intros c H. unfold start_char_ok in H. apply negb_true_iff in H.
+  do 6 (apply orb_false_iff in H; destruct H as [H ?]).
+  unfold bare_flags. cbn [lstep andb].
+  match goal with H1 : is_ws c = false |- _ => rewrite H1 end.
+  repeat match goal with H1 : aeqb c _ = false |- _ => rewrite H1; clear H1 end.
+  rewrite andb_false_r.
+  destruct (aeqb c "\"); [reflexivity|]. destruct (aeqb c "$"); reflexivity.
+Qed.
+
+Lemma bare_ok_start_run : forall s, bare_ok s = true -> lrun LStart s = Some (LBare (rev s) false false, []).
+Proof.
+  intros s H. unfold bare_ok in H. destruct s as [|c s]; [discriminate|].
+  apply andb_true_iff in H. destruct H as [Hc Hf]. apply flags_down_spec in Hf.
+  cbn [absorb_bare] in Hf. pose proof (start_step c Hc) as Hs.
+  destruct (bare_flags false false c) as [[e1 v1]|]; [|discriminate].
+  cbn [lrun]. rewrite Hs, (absorb_bare_run _ [c] _ _ _ _ Hf). reflexivity.
+Qed.
+
+Lemma bare_ok_bare_run : forall s a, bare_ok s = true ->
+  lrun (LBare a false false) s = Some (LBare (rev s ++ a) false false, []).
+Proof.
+  intros s a H. unfold bare_ok in H. destruct s as [|c s]; [discriminate|].
+  apply andb_true_iff in H. destruct H as [_ Hf]. apply flags_down_spec in Hf.
+  apply absorb_bare_run. exact Hf.
+Qed.
+
+Lemma dq_ok_run : forall s a, dq_ok s = true ->
+  lrun (LQuote """" a false false) s = Some (LQuote """" (rev s ++ a) false false, []).
+Proof. intros s a H. unfold dq_ok in H. apply flags_down_spec in H. apply absorb_quote_run. exact H. Qed.
+
 (* ---------------------------------------------------------------- one symbol *)
 
 Section Sound.
@@ -236,9 +324,30 @@ Section Sound.
     rewrite quote_run by assumption. cbn [map]. rewrite inst_acc_cons. reflexivity.
   Qed.
 
+  Lemma step_bhole : forall s id, sym_ok sg (SB id) = true -> step_spec s (SB id).
+  Proof.
+    intros s id Hok. unfold sym_ok in Hok. unfold step_spec.
+    destruct s as [| |acc e v|q acc e v|]; cbn [slstep]; try exact I.
+    - cbn [inst_st inst_sym]. rewrite (bare_ok_start_run _ Hok). cbn [map].
+      rewrite inst_acc_cons, inst_acc_nil, app_nil_r. reflexivity.
+    - destruct e; [exact I|]. destruct v; [exact I|].
+      cbn [inst_st inst_sym]. rewrite (bare_ok_bare_run _ _ Hok). cbn [map]. rewrite inst_acc_cons. reflexivity.
+  Qed.
+
+  Lemma step_dhole : forall s id, sym_ok sg (SD id) = true -> step_spec s (SD id).
+  Proof.
+    intros s id Hok. unfold sym_ok in Hok. unfold step_spec.
+    destruct s as [| |acc e v|q acc e v|]; cbn [slstep]; try exact I.
+    destruct e; [exact I|]. destruct v; [exact I|].
+    destruct (aeqb q """") eqn:Hq; cbn [inst_st inst_sym]; [|exact I].
+    unfold aeqb in Hq. apply Ascii.eqb_eq in Hq. subst q.
+    rewrite (dq_ok_run _ _ Hok). cbn [map]. rewrite inst_acc_cons. reflexivity.
+  Qed.
+
   Lemma step_sound : forall s x, sym_ok sg x = true -> step_spec s x.
   Proof.
-    intros s x H. destruct x as [c|id|id]; [apply step_char | apply step_hole; exact H | apply step_qhole; exact H].
+    intros s x H. destruct x as [c|id|id|id|id];
+      [apply step_char | apply step_hole; exact H | apply step_qhole; exact H | apply step_bhole; exact H | apply step_dhole; exact H].
   Qed.
 
   (* ---------------------------------------------------------------- whole runs *)
